@@ -439,6 +439,17 @@ func firstDiffT2(a, b []byte) int {
 	return i
 }
 
+// t2WaitFor: the liveness bound of a scenario: t2LiveWait on top of the time during which it offers no proxy.
+func t2WaitFor(faults []t2Fault) time.Duration {
+	d := t2LiveWait
+	for _, f := range faults {
+		if f.kind == t2PopDelay && f.idx > 2 {
+			d += time.Duration(f.idx) * time.Second
+		}
+	}
+	return d
+}
+
 func t2Run(faults []t2Fault, upSize, downSize int, extraCarriers int, bridgeCloses bool) *t2Result {
 	res := &t2Result{}
 	up, down := t2Payload(1, upSize), t2Payload(2, downSize)
@@ -509,7 +520,7 @@ func t2Run(faults []t2Fault, upSize, downSize int, extraCarriers int, bridgeClos
 		<-wdone
 	}()
 	// the client has everything; wait until the bridge has everything too
-	deadline := time.After(t2LiveWait)
+	deadline := time.After(t2WaitFor(faults))
 	complete := false
 	select {
 	case <-done:
@@ -631,6 +642,12 @@ func TestVerifEnumC01T2(t *testing.T) {
 	// a bulk transfer whose carrier dies while about a megabyte is outstanding and whose replacement comes
 	// five seconds later: KCP's retransmissions meet full send queues in the meantime
 	scen = append(scen, scenario{[]t2Fault{{t2CutAbrupt, true, 600}, {kind: t2PopDelay, idx: 5}}, 8 << 20, 8 << 20, false}, scenario{[]t2Fault{{t2CutAbrupt, false, 600}, {kind: t2PopDelay, idx: 5}}, 8 << 20, 8 << 20, false})
+	// an outage of more than two minutes (no proxy at all), then a working one: both ends must still hold the
+	// session (their keep-alive windows are 10 minutes) and the stream resumes
+	scen = append(scen, scenario{[]t2Fault{{t2CutAbrupt, true, 3}, {kind: t2PopDelay, idx: 125}}, 300000, 200000, false})
+	if thorough {
+		scen = append(scen, scenario{[]t2Fault{{t2CutClean, false, 3}, {kind: t2PopDelay, idx: 125}}, 2000, 3000, false}, scenario{[]t2Fault{{t2CutAbrupt, true, 40}, {kind: t2PopDelay, idx: 70}}, 300000, 200000, false})
+	}
 	scen = append(scen, scenario{[]t2Fault{{}}, 0, 200000, true}, scenario{[]t2Fault{{t2Blackhole, false, 3}}, 300000, 200000, false}, scenario{[]t2Fault{{t2Blackhole, true, 10}}, 300000, 200000, false})
 	pairs := []t2Fault{{t2CutClean, true, 3}, {t2CutAbrupt, false, 3}, {t2CutHalf, true, 3}, {kind: t2DeadOnUse}, {t2CutHalf, false, 1}}
 	for _, a := range pairs {
@@ -655,6 +672,9 @@ func TestVerifEnumC01T2(t *testing.T) {
 		if r.TimeUp() {
 			break
 		}
+		if os.Getenv("VERIF_T2_SKIP_LONG") != "" && t2WaitFor(sc.faults) > 2*t2LiveWait {
+			continue // the race pass leaves out the minutes-long outages
+		}
 		var names []string
 		for _, f := range sc.faults {
 			names = append(names, f.String())
@@ -662,6 +682,9 @@ func TestVerifEnumC01T2(t *testing.T) {
 		desc := fmt.Sprintf("faults [%s] up %d B down %d B", strings.Join(names, ", "), sc.up, sc.down)
 		if sc.bridgeCloses {
 			desc += ", the bridge closes after writing"
+		}
+		if only := os.Getenv("VERIF_T2_ONLY"); only != "" && !strings.Contains(desc, only) {
+			continue
 		}
 		r.Case("e2e|"+desc, true)
 		t0 := time.Now()
@@ -688,7 +711,7 @@ func TestVerifEnumC01T2(t *testing.T) {
 				}
 			}
 			if rep == 3 {
-				r.Fail("stream:no-progress", fmt.Sprintf("the stream did not complete within %v in any of 4 runs although working proxies were available", t2LiveWait), desc)
+				r.Fail("stream:no-progress", fmt.Sprintf("the stream did not complete within %v in any of 4 runs although working proxies were available", t2WaitFor(sc.faults)), desc)
 			} else {
 				logf("%s: timed out once, completed on re-run", desc)
 			}
